@@ -17,6 +17,7 @@ ORACLE = os.path.join(vf.VERIF, "lib", "c11_oracle.py")
 T0_MS = 2000000000000   # harness constant: the instant every recorded history runs at
 
 KV_MAXLOG = [300, 700, 1500, 4000]
+SIZE_HIST_BASE = 1000   # kv history indices >= this are the boundary-size histories
 
 
 def _params(tier):
@@ -26,12 +27,14 @@ def _params(tier):
         # fork/exit of the instrumented address space), so the every-byte enumeration runs in the plain
         # flavor and the sanitizer flavor re-judges the same histories at the structurally chosen cuts.
         return dict(kv_hist=int(os.environ.get("VF_C11_KV_HIST", "280")), kv_nops=24,
+                    kv_size_hist=int(os.environ.get("VF_C11_SIZE_HIST", "12")),
                     js_hist=int(os.environ.get("VF_C11_JSON_HIST", "64")), js_nops=18, cont=5, judge_timeout=5400,
                     passes=[dict(flavor="plain", cuts="full", maxfull=256, maxfull_json=1024, cap=24, levels=2, l2every=6, l2cuts=3,
                                  tcap=8, tbyte=60),
                             dict(flavor="asan", cuts="quick", maxfull=0, maxfull_json=0, cap=8, levels=2, l2every=4, l2cuts=2,
                                  tcap=12, tbyte=333)])
     return dict(kv_hist=int(os.environ.get("VF_C11_KV_HIST", "40")), kv_nops=22,
+                kv_size_hist=int(os.environ.get("VF_C11_SIZE_HIST", "4")),
                 js_hist=int(os.environ.get("VF_C11_JSON_HIST", "12")), js_nops=16, cont=4, judge_timeout=1500,
                 passes=[dict(flavor="asan", cuts="quick", maxfull=0, maxfull_json=0, cap=8, levels=1, l2every=1, l2cuts=0,
                              tcap=int(os.environ.get("VF_C11_TCAP", "10")), tbyte=333)])
@@ -40,11 +43,16 @@ def _params(tier):
 def _hist_cfg(store, hist):
     """per-history configuration (deterministic in the history index)"""
     if store == "json":
-        return dict(variant=0, maxlog=0, empty=0)
+        return dict(variant=0, maxlog=0, empty=0, sizes=0)
+    if hist >= SIZE_HIST_BASE:
+        # boundary-size histories: keys of 1/255/256/65534/65535 bytes (+ a refused 65536-byte one), values of
+        # 0/1/255/256/65535/65536 bytes and ~300 KiB; log limit chosen so inline compaction moves the 64 KiB keys
+        # into the snapshot every few writes (1 history in 4: library defaults, explicit compact() only)
+        return dict(variant=1 if hist % 4 == 3 else 0, maxlog=[70000, 140000, 200000][hist % 3], empty=1, sizes=1)
     variant = 1 if hist % 4 == 3 else 0            # 3 of 4 histories: compaction runs inside API calls
     # empty values: every history (they were confined to 1 history in 8 while KVStore::load() still called
     # memcpy(nullptr, p, 0) for them, a fatal UBSan report in this flavor; fixed in /repo 3914c93)
-    return dict(variant=variant, maxlog=KV_MAXLOG[(hist // 4 + hist) % len(KV_MAXLOG)], empty=1)
+    return dict(variant=variant, maxlog=KV_MAXLOG[(hist // 4 + hist) % len(KV_MAXLOG)], empty=1, sizes=0)
 
 
 def _run_oracle(logp, obsp, outp, final=False):
@@ -66,10 +74,11 @@ def _judge_args(store, seed, hist, cfg, P, ps, d, only=None, only_r=None):
     # the isolated re-run of a "hung" image always gets the full 60 s)
     wd = 60000 if only else int(os.environ.get("VF_C11_CHILD_TIMEOUT_MS", "30000"))
     a = ["--mode", "judge", "--store", store, "--seed", seed, "--hist", hist, "--variant", cfg["variant"],
-         "--maxlog", cfg["maxlog"], "--empty", cfg["empty"], "--dir", d, "--trace", os.path.join(d, "trace"),
-         "--cuts", ps["cuts"], "--maxfull", ps["maxfull_json"] if store == "json" else ps["maxfull"], "--cap", ps["cap"],
+         "--maxlog", cfg["maxlog"], "--empty", cfg["empty"], "--sizes", cfg["sizes"], "--dir", d, "--trace", os.path.join(d, "trace"),
+         "--cuts", "quick" if cfg["sizes"] else ps["cuts"],
+         "--maxfull", ps["maxfull_json"] if store == "json" else ps["maxfull"], "--cap", 4 if cfg["sizes"] else ps["cap"],
          "--cont", P["cont"], "--levels", ps["levels"], "--l2every", ps["l2every"], "--l2cuts", ps["l2cuts"],
-         "--tcap", ps["tcap"], "--tbyte", ps["tbyte"], "--timeout-ms", wd]
+         "--tcap", 3 if cfg["sizes"] else ps["tcap"], "--tbyte", 100 if cfg["sizes"] else ps["tbyte"], "--timeout-ms", wd]
     if only:
         a += ["--only", only, "--levels", 2 if only.count(":") == 3 else 1]
         a += ["--only-r", only_r if only_r is not None else T0_MS]
@@ -83,11 +92,12 @@ def _history(ctx, binary, store, hist, P, ps, only=None, keep=False, only_r=None
     d = os.path.join(ctx.tmp, f"{store}-{hist}-{ps['flavor']}" + ("-only" if only else ""))
     os.makedirs(d, exist_ok=True)
     try:
-        nops = P["kv_nops"] if store == "kv" else P["js_nops"]
+        nops = (12 if cfg["sizes"] else P["kv_nops"]) if store == "kv" else P["js_nops"]
         out1 = os.path.join(d, "rec.jsonl")
         logp = os.path.join(d, "log.json")
         rr = vf.run_harness(binary, ["--mode", "record", "--store", store, "--seed", ctx.seed, "--hist", hist, "--nops", nops,
                                      "--variant", cfg["variant"], "--maxlog", cfg["maxlog"], "--empty", cfg["empty"],
+                                     "--sizes", cfg["sizes"],
                                      "--dir", os.path.join(d, "rec"),
                                      "--trace", os.path.join(d, "trace"), "--log", logp, "--out", out1],
                             timeout=600, out_file=out1)
@@ -151,7 +161,7 @@ def _history(ctx, binary, store, hist, P, ps, only=None, keep=False, only_r=None
         j = [r for r in rr2.records if r.get("t") == "judge"]
         if j:
             j = j[0]
-            res["summary"] = dict(store=store, hist=hist, flavor=ps["flavor"], cuts=ps["cuts"], variant=cfg["variant"], maxlog=cfg["maxlog"],
+            res["summary"] = dict(store=store, hist=hist, boundary_sizes=bool(cfg["sizes"]), flavor=ps["flavor"], cuts=("quick" if cfg["sizes"] else ps["cuts"]), variant=cfg["variant"], maxlog=cfg["maxlog"],
                                   calls=len(lg["calls"]), file_ops=j["ops"], writes=j["writes"],
                                   every_operation_boundary=True,
                                   writes_cut_at_every_byte=j["writes_full"],
@@ -192,7 +202,8 @@ def run(ctx):
     jobs = []
     for ps in P["passes"]:
         b = bins[("c11_crash", ps["flavor"])]
-        js = [lambda h=h, b=b, ps=ps: _history(ctx, b, "kv", h, P, ps) for h in range(P["kv_hist"])] + \
+        js = [lambda h=h, b=b, ps=ps: _history(ctx, b, "kv", SIZE_HIST_BASE + h, P, ps) for h in range(P["kv_size_hist"])] + \
+             [lambda h=h, b=b, ps=ps: _history(ctx, b, "kv", h, P, ps) for h in range(P["kv_hist"])] + \
              [lambda h=h, b=b, ps=ps: _history(ctx, b, "json", h, P, ps) for h in range(P["js_hist"])]
         jobs += js[::2] + js[1::2]   # interleave the two stores
     summaries = []
@@ -232,7 +243,10 @@ def run(ctx):
                     "kv_class:between-log-appends", "kv_recovered_old", "kv_recovered_new", "kv_continuations_checked",
                     "kv_continuations_with_compaction", "kv_recovered_at_a_deadline_instant",
                     "kv_recovered_with_some_acknowledged_deadline_passed",
-                    "kv_expiry_change_after_compaction_recovered_after_old_deadline", "json_images_judged", "json_class:cut-in-flush",
+                    "kv_expiry_change_after_compaction_recovered_after_old_deadline",
+                    "kv_images_with_65535_byte_key_in_snapshot", "kv_images_with_65534_byte_key_in_snapshot",
+                    "kv_images_with_256_byte_key_in_snapshot", "kv_images_with_1_byte_key_in_snapshot",
+                    "kv_oversize_key_refused", "json_images_judged", "json_class:cut-in-flush",
                     "json_continuations_checked")
 
 
